@@ -125,7 +125,9 @@ class RunStream(C.Stream):
             else:
                 case["interrupt"] = ["get", rng.randint(1, 12)]
         elif r < self.p_interrupt + self.p_fault:
-            case["fault"] = {"k": rng.randint(0, 40), "cls": rng.choice(O.FAULT_CLASSES), "text": FAULT_TEXT}
+            # the message: usual, EMPTY (str(exception) == "": a bare assert, KeyError()), starting with a line break
+            text = rng.choice([FAULT_TEXT, FAULT_TEXT, FAULT_TEXT, "", "\n" + FAULT_TEXT, " "])
+            case["fault"] = {"k": rng.randint(0, 40), "cls": rng.choice(O.FAULT_CLASSES), "text": text}
         return case
 
     def impl(self, case):
